@@ -426,8 +426,56 @@ fn mk(ty: &str, idx: &str) -> String {
 }
 
 /// Text of the driver of module `k`.
-pub fn driver_text(k: usize, spec: &GSpec, built: &Built, reduced: bool) -> String {
+/// Field names of a struct of the generated text (`None` when the struct is not there).
+fn struct_fields(text: &str, name: &str) -> Option<Vec<String>> {
+    let mut lines = text.lines();
+    while let Some(l) = lines.next() {
+        let t = l.trim();
+        let rest = match t.strip_prefix("pub struct ").or_else(|| t.strip_prefix("struct ")) {
+            Some(r) => r,
+            None => continue,
+        };
+        let ident: String = rest.chars().take_while(|c| c.is_alphanumeric() || *c == '_').collect();
+        if ident != name {
+            continue;
+        }
+        if t.ends_with(';') {
+            return Some(Vec::new());
+        }
+        let mut fields = Vec::new();
+        for l in lines.by_ref() {
+            let t = l.trim();
+            if t.starts_with('}') {
+                break;
+            }
+            if let Some(r) = t.strip_prefix("pub ") {
+                if let Some(n) = r.split(':').next() {
+                    fields.push(n.trim().to_owned());
+                }
+            }
+        }
+        return Some(fields);
+    }
+    None
+}
+
+/// The driver follows the *generated* interface where it differs from what the definition
+/// promises (the difference is reported, and the rest of the module is still exercised).
+pub fn driver_text(k: usize, spec: &GSpec, built: &Built, reduced: bool, generated: &str, mismatches: &mut Vec<String>) -> String {
     let vf = variant_fields(built);
+    let mut offered = |strukt: String, wanted: &[String], mismatches: &mut Vec<String>| -> Vec<String> {
+        match struct_fields(generated, &strukt) {
+            None => wanted.to_vec(),
+            Some(actual) => {
+                let missing: Vec<&String> = wanted.iter().filter(|w| !actual.contains(w)).collect();
+                let extra: Vec<&String> = actual.iter().filter(|a| !wanted.contains(a) && *a != "record").collect();
+                if !missing.is_empty() || !extra.is_empty() {
+                    mismatches.push(format!("{}: the definition promises fields {:?}, the generated struct has {:?}", strukt, wanted, actual));
+                }
+                wanted.iter().filter(|w| actual.contains(w)).cloned().collect()
+            }
+        }
+    };
     let nv = vf.len();
     let has_clone = spec.fragset & 1 != 0;
     let has_serde = spec.fragset & 2 != 0;
@@ -459,8 +507,12 @@ pub fn driver_text(k: usize, spec: &GSpec, built: &Built, reduced: bool) -> Stri
     // per-variant functions
     for v in 0..nv {
         let f = &vf[v];
-        let all = f.iter().enumerate().map(|(i, x)| format!("{}: {}", x.name, mk(PALETTE[x.pal].expr, &format!("ids[{}]", i)))).collect::<Vec<_>>().join(", ");
-        let mandatory = f.iter().enumerate().filter(|(_, x)| !x.uninit).map(|(i, x)| format!("{}: {}", x.name, mk(PALETTE[x.pal].expr, &format!("ids[{}]", i)))).collect::<Vec<_>>().join(", ");
+        let names_all: Vec<String> = f.iter().map(|x| x.name.clone()).collect();
+        let names_mand: Vec<String> = f.iter().filter(|x| !x.uninit).map(|x| x.name.clone()).collect();
+        let ok_all = offered(format!("UnpackedRecord{}", v), &names_all, mismatches);
+        let ok_mand = offered(format!("UnpackedUninitRecord{}", v), &names_mand, mismatches);
+        let all = f.iter().enumerate().filter(|(_, x)| ok_all.contains(&x.name)).map(|(i, x)| format!("{}: {}", x.name, mk(PALETTE[x.pal].expr, &format!("ids[{}]", i)))).collect::<Vec<_>>().join(", ");
+        let mandatory = f.iter().enumerate().filter(|(_, x)| !x.uninit && ok_mand.contains(&x.name)).map(|(i, x)| format!("{}: {}", x.name, mk(PALETTE[x.pal].expr, &format!("ids[{}]", i)))).collect::<Vec<_>>().join(", ");
         let _ = writeln!(w, "fn new_{v}<const CAP: usize>(ids: &[u64]) -> CappedRecord{v}<CAP> {{ CappedRecord{v}::new(UnpackedRecord{v} {{ {all} }}) }}");
         let _ = writeln!(w, "fn new_uninit_{v}<const CAP: usize>(ids: &[u64]) -> CappedRecord{v}<CAP> {{ CappedRecord{v}::new_uninit(UnpackedUninitRecord{v} {{ {mandatory} }}) }}");
         let _ = writeln!(w, "fn from_unpacked_{v}<const CAP: usize>(ids: &[u64]) -> CappedRecord{v}<CAP> {{ CappedRecord{v}::from(UnpackedRecord{v} {{ {all} }}) }}");
@@ -480,7 +532,11 @@ pub fn driver_text(k: usize, spec: &GSpec, built: &Built, reduced: bool) -> Stri
         // unpack
         let _ = writeln!(w, "fn unpack_{v}<const CAP: usize>(r: CappedRecord{v}<CAP>, mask: u64) -> Vec<FieldObs> {{ let u = r.unpack(); vec![");
         for (i, x) in f.iter().enumerate() {
-            let _ = writeln!(w, "    if mask & (1 << {i}) != 0 {{ obs(&u.{}) }} else {{ skipped() }},", x.name);
+            if ok_all.contains(&x.name) {
+                let _ = writeln!(w, "    if mask & (1 << {i}) != 0 {{ obs(&u.{}) }} else {{ skipped() }},", x.name);
+            } else {
+                let _ = writeln!(w, "    skipped(),");
+            }
         }
         let _ = writeln!(w, "] }}");
         // conversion from the previous variant
@@ -488,10 +544,16 @@ pub fn driver_text(k: usize, spec: &GSpec, built: &Built, reduced: bool) -> Stri
             let prev = &vf[v - 1];
             let minus: Vec<&FieldInfo> = prev.iter().filter(|p| !f.iter().any(|x| x.datum_id == p.datum_id)).collect();
             let plus: Vec<&FieldInfo> = f.iter().filter(|x| !prev.iter().any(|p| p.datum_id == x.datum_id)).collect();
-            let plus_all = plus.iter().enumerate().map(|(i, x)| format!("{}: {}", x.name, mk(PALETTE[x.pal].expr, &format!("ids[{}]", i)))).collect::<Vec<_>>().join(", ");
-            let plus_mand = plus.iter().enumerate().filter(|(_, x)| !x.uninit).map(|(i, x)| format!("{}: {}", x.name, mk(PALETTE[x.pal].expr, &format!("ids[{}]", i)))).collect::<Vec<_>>().join(", ");
-            let destructure = std::iter::once("record".to_owned()).chain(minus.iter().map(|m| m.name.clone())).collect::<Vec<_>>().join(", ");
-            let returned = minus.iter().enumerate().map(|(i, m)| format!("if mask & (1 << {i}) != 0 {{ obs(&{}) }} else {{ skipped() }}", m.name)).collect::<Vec<_>>().join(", ");
+            let names_plus: Vec<String> = plus.iter().map(|x| x.name.clone()).collect();
+            let names_plus_mand: Vec<String> = plus.iter().filter(|x| !x.uninit).map(|x| x.name.clone()).collect();
+            let names_minus: Vec<String> = minus.iter().map(|x| x.name.clone()).collect();
+            let ok_plus = offered(format!("UnpackedRecordIn{}", v), &names_plus, mismatches);
+            let ok_plus_mand = offered(format!("UnpackedUninitRecordIn{}", v), &names_plus_mand, mismatches);
+            let ok_minus = offered(format!("Record{}AndUnpackedOut", v), &names_minus, mismatches);
+            let plus_all = plus.iter().enumerate().filter(|(_, x)| ok_plus.contains(&x.name)).map(|(i, x)| format!("{}: {}", x.name, mk(PALETTE[x.pal].expr, &format!("ids[{}]", i)))).collect::<Vec<_>>().join(", ");
+            let plus_mand = plus.iter().enumerate().filter(|(_, x)| !x.uninit && ok_plus_mand.contains(&x.name)).map(|(i, x)| format!("{}: {}", x.name, mk(PALETTE[x.pal].expr, &format!("ids[{}]", i)))).collect::<Vec<_>>().join(", ");
+            let destructure = std::iter::once("record".to_owned()).chain(minus.iter().filter(|m| ok_minus.contains(&m.name)).map(|m| m.name.clone())).chain(std::iter::once("..".to_owned())).collect::<Vec<_>>().join(", ");
+            let returned = minus.iter().enumerate().map(|(i, m)| if ok_minus.contains(&m.name) { format!("if mask & (1 << {i}) != 0 {{ obs(&{}) }} else {{ skipped() }}", m.name) } else { "skipped()".to_owned() }).collect::<Vec<_>>().join(", ");
             let p = v - 1;
             if reduced {
                 let _ = writeln!(
@@ -513,7 +575,7 @@ pub fn driver_text(k: usize, spec: &GSpec, built: &Built, reduced: bool) -> Stri
             );
             }
             // vector of records converted in place (form 0)
-            let plus_row = plus.iter().enumerate().map(|(i, x)| format!("{}: {}", x.name, mk(PALETTE[x.pal].expr, &format!("plus_rows[i][{}]", i)))).collect::<Vec<_>>().join(", ");
+            let plus_row = plus.iter().enumerate().filter(|(_, x)| ok_plus.contains(&x.name)).map(|(i, x)| format!("{}: {}", x.name, mk(PALETTE[x.pal].expr, &format!("plus_rows[i][{}]", i)))).collect::<Vec<_>>().join(", ");
             let _ = writeln!(
                 w,
                 "fn vec_convert_{p}<const CAP: usize>(rows: &[Vec<u64>], plus_rows: &[Vec<u64>], keep: u64, spare: usize) -> OpOut {{
@@ -689,14 +751,15 @@ pub fn mode(args: &Args) {
             }
         };
         write_if_changed(&dir.join("src").join(format!("m{}.rs", k)), &text);
-        write_if_changed(&dir.join("src").join(format!("d{}.rs", k)), &driver_text(k, spec, &built, reduced.iter().any(|m| *m == format!("m{}", k))));
+        let mut mismatches: Vec<String> = Vec::new();
+        write_if_changed(&dir.join("src").join(format!("d{}.rs", k)), &driver_text(k, spec, &built, reduced.iter().any(|m| *m == format!("m{}", k)), &text, &mut mismatches));
         let _ = writeln!(main, "#[allow(dead_code, unused_imports, unused_variables, clippy::all)]\nmod m{k} {{ include!(\"m{k}.rs\"); }}\nmod d{k};");
         for c in &caps {
             let _ = writeln!(body, "    {{ let mut st = d{k}::State::<{{ m{k}::MAX_SIZE + {c} }}>::new(); drvlib::interp::run_module(&mut st, &args, &mut report); }}");
         }
         let nfields: usize = built.def.variants().map(|v| v.data_len()).sum();
         manifest.push(serde_json::json!({"module": format!("m{}", k), "label": spec.label, "history": spec.text(), "fragments": FRAGSETS[spec.fragset],
-            "variants": built.def.variants().count(), "fields_total": nfields, "max_size": built.def.max_size(), "align": built.def.max_type_align(), "status": "emitted", "lines": text.lines().count()}));
+            "interface_mismatch": mismatches, "variants": built.def.variants().count(), "fields_total": nfields, "max_size": built.def.max_size(), "align": built.def.max_type_align(), "status": "emitted", "lines": text.lines().count()}));
         emitted += 1;
     }
     let _ = writeln!(
